@@ -525,6 +525,9 @@ def hof_models(I, st, caller, func, args, argtys, dest_ty):
         if op == "ok_or":
             outs.append(Outcome("return", EnumV("Result", 0, {0: (payload[0],)}) if isgood else EnumV("Result", 1, {1: (args[1],)}), s2))
             continue
+        if op == "is_none_or" and not isgood:
+            outs.append(Outcome("return", z3.BoolVal(True), s2))
+            continue
         if op in ("and_then", "map", "is_some_and", "is_ok_and", "filter") and not isgood:
             if op in ("and_then", "map", "filter"):
                 outs.append(Outcome("return", v if kind == "Result" else EnumV("Option", 0, {}), s2))
@@ -549,7 +552,7 @@ def hof_models(I, st, caller, func, args, argtys, dest_ty):
                 outs.append(Outcome("return", r, o.state))
             elif op == "map":
                 outs.append(Outcome("return", EnumV(kind, idx, {idx: (r,)}), o.state))
-            elif op in ("is_some_and", "is_ok_and"):
+            elif op in ("is_some_and", "is_ok_and", "is_none_or"):
                 outs.append(Outcome("return", r, o.state))
             elif op == "map_err":
                 outs.append(Outcome("return", EnumV("Result", 1, {1: (r,)}), o.state))
